@@ -446,7 +446,7 @@ func runExchange(t *verifsim.Tape, cfg engine.Config, prop string) *engine.Outco
 				mode = "boundary-ok"
 			}
 		case "C05":
-			mode = []string{"declared", "declared", "undeclared-service-error", "plain-error", "wrapped-declared", "valid"}[t.Draw("c05-mode", 6)]
+			mode = []string{"declared", "declared", "undeclared-service-error", "plain-error", "wrapped-declared", "valid", "wrapped-undeclared"}[t.Draw("c05-mode", 7)]
 		}
 		switch mode {
 		case "invalid-payload", "boundary-ok":
@@ -559,9 +559,19 @@ func runExchange(t *verifsim.Tape, cfg engine.Config, prop string) *engine.Outco
 			if mode == "wrapped-declared" {
 				scriptErr = fmt.Errorf("wrapped: %w", scriptErr)
 			}
-		case "undeclared-service-error":
+		case "undeclared-service-error", "wrapped-undeclared":
 			fl := t.Draw("flags", 8)
 			scriptErr = goa.NewServiceError(fmt.Errorf("undeclared failure %d", xi), "not_in_design", fl&1 != 0, fl&2 != 0, fl&4 != 0)
+			if mode == "wrapped-undeclared" {
+				// user code annotates the errors of its callees: a goa service error stays one through any chain of %w / Unwrap
+				for k := 1 + t.Draw("wrap-depth", 3); k > 0; k-- {
+					if t.Draw("wrap-how", 2) == 0 {
+						scriptErr = fmt.Errorf("layer %d: %w", k, scriptErr)
+					} else {
+						scriptErr = &unwrapper{scriptErr}
+					}
+				}
+			}
 		case "plain-error":
 			scriptErr = fmt.Errorf("plain failure %d", xi)
 		}
@@ -961,8 +971,11 @@ func judgeError(o *engine.Outcome, w *world, d *spec.Design, s *spec.Service, m 
 		if want.Temporary != orig.Temporary || want.Timeout != orig.Timeout || want.Fault != orig.Fault {
 			o.Violate("error_flags_design", "error_flags_design", "%s: Make%s produced flags tmp:%v to:%v fault:%v, design says tmp:%v to:%v fault:%v", where, want.Name, orig.Temporary, orig.Timeout, orig.Fault, want.Temporary, want.Timeout, want.Fault)
 		}
-	case "undeclared-service-error":
+	case "undeclared-service-error", "wrapped-undeclared":
 		o.Features["c05_undeclared"]++
+		if mode == "wrapped-undeclared" {
+			o.Features["c05_undeclared_wrapped"]++
+		}
 		var orig *goa.ServiceError
 		errors.As(scriptErr, &orig)
 		wantStatus := 400
@@ -977,7 +990,7 @@ func judgeError(o *engine.Outcome, w *world, d *spec.Design, s *spec.Service, m 
 			wantStatus = 503
 		}
 		if ex.Status != wantStatus {
-			o.Violate("default_error_status", fmt.Sprintf("default_error_status:fault=%v,timeout=%v,temporary=%v", orig.Fault, orig.Timeout, orig.Temporary), "%s: undeclared service error (fault=%v timeout=%v temporary=%v) went out with status %d, documented default is %d", where, orig.Fault, orig.Timeout, orig.Temporary, ex.Status, wantStatus)
+			o.Violate("default_error_status", fmt.Sprintf("default_error_status:%sfault=%v,timeout=%v,temporary=%v", map[bool]string{true: "wrapped,"}[mode == "wrapped-undeclared"], orig.Fault, orig.Timeout, orig.Temporary), "%s: undeclared service error (fault=%v timeout=%v temporary=%v) went out with status %d, documented default is %d", where, orig.Fault, orig.Timeout, orig.Temporary, ex.Status, wantStatus)
 		}
 		var er goahttp.ErrorResponse
 		if err := json.Unmarshal(ex.RespBody, &er); err != nil || er.Name != "not_in_design" || er.ID != orig.ID || er.Fault != orig.Fault || er.Timeout != orig.Timeout || er.Temporary != orig.Temporary {
@@ -1000,6 +1013,12 @@ func judgeError(o *engine.Outcome, w *world, d *spec.Design, s *spec.Service, m 
 	}
 }
 
+
+// unwrapper is a user error type that wraps another one the standard way.
+type unwrapper struct{ err error }
+
+func (u *unwrapper) Error() string { return "annotated: " + u.err.Error() }
+func (u *unwrapper) Unwrap() error { return u.err }
 
 // classifyFailure names the cause class of a failed valid exchange from the
 // design and the values (the signature known findings are matched on).
